@@ -64,7 +64,20 @@ def add_gadgets(rng, m):
         return m["n"] - 1
     kind = rng.random()
     base = F(rng.randint(-3, 0 if nonpos else 3))
-    if kind < .1:
+    if kind < .06 and not nonpos:
+        # (g) NOT absorbing although its expected rewards cancel: every action is a certain self-loop, one pays +r and
+        # the other -r (discounted problems only: positive reward)
+        r_ = F(rng.choice([1, 2, 5]))
+        s = new_state([0, 1])
+        for a, rr in ((0, r_), (1, -r_)):
+            m["trans"]["%d,%d" % (s, a)] = [[s, "1"]]
+            m["reward"]["%d,%d,%d" % (s, a, s)] = str(rr)
+        e = new_state([0, 1])
+        m["trans"]["%d,0" % e] = [[s, "1"]]
+        m["trans"]["%d,1" % e] = [[tgt, "1"]]
+        m["reward"]["%d,0,%d" % (e, s)] = str(F(rng.randint(-2, 2)))
+        m["init"] = [[x, str(F(p) / 2)] for x, p in m["init"]] + [[e, "1/2"]]
+    elif kind < .12:
         # (e) tiny-probability branch that matters: w.p. 2^-k (k >= 27, below isclose's atol) the action ends in a
         # fresh absorbing state with a reward of magnitude ~2^k; a second action is a plain alternative
         k = rng.choice([27, 30, 34, 40])
@@ -196,6 +209,8 @@ def gen_case(rng, tier):
     if nondyadic:
         eps = rng.choice(["1/100000000", "1/10000000000"])
     mi = rng.choice([100000] * 8 + [1, 2, 5])
+    if rng.random() < .15 and F(m["gamma"]) <= F(9, 10) and not nondyadic:
+        eps, mi = "0", 3000        # a configured residual of exactly 0: iterate to the floating-point fixed point
     batch = None
     if rng.random() < .35:
         # batch entry point: 2..4 problems, sometimes exactly as many as there are states
@@ -468,7 +483,8 @@ def run(ctx):
                     meta.append(("chkU", i, planner))
             # mirror: only when the loop is short enough for exact arithmetic
             if planner in ("vi_vec", "vi_dict") and out["iterations"] <= (25 if tier == "quick" else 60) \
-                    and not any(res["unable_vec"]):
+                    and not any(res["unable_vec"]) and F(case["max_residual"]) > 0:
+                # (a residual of exactly 0 is never met by the exact-arithmetic mirror: it would run to the cap)
                 # V as the loop leaves it (placeholder states are overwritten afterwards: skip those cases)
                 terms.append("%s %s %s %s %s %s" % ("mir_vec" if planner == "vi_vec" else "mir_dict", mt,
                                                    nat(case["max_iterations"]), q(case["max_residual"]),
